@@ -1,11 +1,11 @@
 package main
 
 import (
-	"strings"
 	"fmt"
 	"math/rand"
 	"regexp"
 	"sort"
+	"strings"
 	"time"
 
 	zlint "github.com/zmap/zlint/v3"
@@ -157,7 +157,7 @@ func filteredRegistries(rng *rand.Rand, nRandom int) []namedReg {
 }
 
 type sweepSummary struct {
-	Steered int `json:"steered_witnesses"`
+	Steered      int `json:"steered_witnesses"`
 	Objects      map[string]int
 	Execs        int
 	RunDone      int
